@@ -456,18 +456,28 @@ func TestC19ColdChild(t *testing.T) {
 	if os.Getenv("VERIF_C19_COLD") == "" {
 		t.Skip("child of the cold-start check")
 	}
-	names := dpt.ListSupportedTypes()
-	sort.Strings(names)
 	const g = 16
 	var ready, bad int32
 	var wg sync.WaitGroup
 	msgs := make([]string, g)
+	lists := make([][]string, g)
 	for k := 0; k < g; k++ {
 		wg.Add(1)
 		go func(k int) {
 			defer wg.Done()
 			atomic.AddInt32(&ready, 1)
 			for atomic.LoadInt32(&ready) < g {
+			}
+			// the first listing of the process is taken by all goroutines at once, too
+			names := append([]string{}, dpt.ListSupportedTypes()...)
+			sort.Strings(names)
+			lists[k] = names
+			for i := 1; i < len(names); i++ {
+				if names[i] == names[i-1] {
+					atomic.AddInt32(&bad, 1)
+					msgs[k] = fmt.Sprintf("goroutine %d: the listing names %q twice", k, names[i])
+					return
+				}
 			}
 			for i := range names {
 				n := names[(i*7+k*11)%len(names)]
@@ -486,6 +496,19 @@ func TestC19ColdChild(t *testing.T) {
 		}(k)
 	}
 	wg.Wait()
+	for k := 1; k < g && bad == 0; k++ {
+		if !reflect.DeepEqual(lists[k], lists[0]) {
+			bad++
+			msgs[k] = fmt.Sprintf("goroutines 0 and %d were given different listings (%d and %d names)", k, len(lists[0]), len(lists[k]))
+		}
+	}
+	if later := append([]string{}, dpt.ListSupportedTypes()...); bad == 0 {
+		sort.Strings(later)
+		if !reflect.DeepEqual(later, lists[0]) {
+			bad++
+			msgs[0] = fmt.Sprintf("a later, quiet call lists %d names, the concurrent first calls listed %d", len(later), len(lists[0]))
+		}
+	}
 	if bad > 0 {
 		for _, m := range msgs {
 			if m != "" {
